@@ -28,8 +28,21 @@ def one(d: Path):
     done = out / f"{name}.json"
     if RESUME_AFTER and done.exists() and done.stat().st_mtime > RESUME_AFTER:
         return name, None
+    checks = ALL
+    if os.environ.get("SEED_CHECKS") == "smart":
+        prior = None
+        if done.exists():
+            try:
+                prior = json.loads(done.read_text())
+            except ValueError:
+                prior = None
+        if prior and prior.get("fired"):
+            checks = sorted(set(prior["fired"]) | {pid})
+        elif prior is None:
+            checks = sorted({pid, "C01", "C02", "C03", "C04", "C05", "C06", "C07", "C12", "C15", "C19"})
     try:
-        r = evaluate(d, ALL)
+        r = evaluate(d, checks)
+        r["checks_run"] = checks
     except Exception as e:  # noqa: BLE001
         r = {"error": repr(e)}
     r["target"] = pid
